@@ -131,6 +131,7 @@ func r6(c *core.Ctx, p *Parser) {
 		}
 	}
 	StartDb(c, p, rule)
+	argsOwned(c)
 }
 
 // StartDb checks that the resumed start database is enqueued first (also used by C04.R5).
@@ -166,69 +167,13 @@ func checkArgs(c *core.Ctx, p *Parser, e *Enq, key string, pa *ast.CallExpr) {
 	body := p.Fn.Decl.Body
 	k := key + "/args"
 	und := func(format string, a ...interface{}) { c.Undecidedf(rule, k, e.Pos(), format, a...) }
-	id, ok := ast.Unparen(e.Field["Args"]).(*ast.Ident)
-	if !ok {
-		und("Args `%s` is not a local slice", c.Src(e.Field["Args"]))
+	src, fail, why := elementCopy(c, info, body, e.Field["Args"], p.Fn.Pkg.PkgPath, 0)
+	if fail != "" {
+		c.Failf(rule, k, e.Pos(), "%s", fail)
 		return
 	}
-	var src ast.Expr
-	var nonEmptyMake *ast.CallExpr
-	for _, o := range Origins(info, body, id) {
-		call, _ := ast.Unparen(o.Expr).(*ast.CallExpr)
-		bi, _ := core.Callee(info, call).(*types.Builtin)
-		switch {
-		case call != nil && bi != nil && bi.Name() == "make":
-			n, ok := int64(-1), false
-			if len(call.Args) >= 2 {
-				n, ok = core.IntConst(info, call.Args[1])
-			}
-			if !ok || n != 0 {
-				nonEmptyMake = call
-			}
-		case call != nil && bi != nil && bi.Name() == "append" && len(call.Args) == 2 && !call.Ellipsis.IsValid() && pat.Same(info, call.Args[0], id):
-			ro, ok := SoleOrigin(info, body, call.Args[1])
-			if !ok || !ro.Range || ro.Res != 1 {
-				und("appended element `%s` is not the value of a range loop", c.Src(call.Args[1]))
-				return
-			}
-			rs := ro.Stmt.(*ast.RangeStmt)
-			if !(rs.Pos() <= call.Pos() && call.End() <= rs.End()) {
-				und("append outside the range that binds its element")
-				return
-			}
-			// one append per element, executed on every iteration
-			n := 0
-			for _, st := range rs.Body.List {
-				if as, ok := st.(*ast.AssignStmt); ok && len(as.Rhs) == 1 && ast.Unparen(as.Rhs[0]) == ast.Expr(call) {
-					n++
-				}
-			}
-			if n != 1 {
-				und("the append is not a top-level statement of the range body")
-				return
-			}
-			src = rs.X
-		default:
-			und("unexpected definition of the argument slice: `%s`", c.Src(o.Stmt))
-			return
-		}
-	}
-	if src != nil && nonEmptyMake != nil {
-		c.Failf(rule, k, nonEmptyMake.Pos(), "`%s` starts the argument list with nil elements and the copied ones are appended after them: the forwarded command has extra arguments", c.Src(nonEmptyMake))
-		return
-	}
-	if src == nil && nonEmptyMake != nil {
-		// make([]T, len(S)) filled by `for i := range S { D[i] = S[i] }` (or the range value)
-		if idx := indexedFill(info, body, id, nonEmptyMake); idx != nil {
-			src = idx
-		}
-	}
-	if src == nil && nonEmptyMake != nil {
-		und("the argument slice is pre-sized by `%s` and filled by index: not the known append form", c.Src(nonEmptyMake))
-		return
-	}
-	if src == nil {
-		c.Failf(rule, k, e.Pos(), "the argument slice is never filled: every command is forwarded without arguments")
+	if why != "" {
+		und("%s", why)
 		return
 	}
 	o, ok := SoleOrigin(info, body, src)
@@ -331,6 +276,128 @@ func indexedFill(info *types.Info, body ast.Node, d *ast.Ident, mk *ast.CallExpr
 	return hit
 }
 
+// elementCopy recognises "x is an element-wise copy of the slice src": x is a
+// local built by make(.., 0, ..) + append in a range over src (or pre-sized and
+// filled by index), or the result of a helper of the package that builds its
+// result that way from one of its parameters. It returns src in the
+// vocabulary of scope, or a failure / undecided message.
+func elementCopy(c *core.Ctx, info *types.Info, scope ast.Node, x ast.Expr, pkgPath string, depth int) (src ast.Expr, fail, undecided string) {
+	if call, ok := ast.Unparen(x).(*ast.CallExpr); ok && depth < 3 {
+		h := HelperOf(c.Program, info, scope, call, pkgPath)
+		if h == nil || call.Ellipsis.IsValid() {
+			return nil, "", fmt.Sprintf("Args `%s` is not a local slice", c.Src(x))
+		}
+		var rets []*ast.ReturnStmt
+		core.Inspect(h.Body, func(m ast.Node) bool {
+			if r, ok := m.(*ast.ReturnStmt); ok {
+				rets = append(rets, r)
+			}
+			return true
+		})
+		if len(rets) != 1 || len(rets[0].Results) != 1 {
+			return nil, "", fmt.Sprintf("the helper called by `%s` does not have a single return of one value", c.Src(x))
+		}
+		hscope := ast.Node(h.Body)
+		if h.Fn != nil {
+			hscope = h.Fn.Decl
+		} else if h.Lit != nil {
+			hscope = h.Lit
+		}
+		hsrc, f, u := elementCopy(c, h.Info, hscope, rets[0].Results[0], pkgPath, depth+1)
+		if f != "" || u != "" {
+			return nil, f, u
+		}
+		bind := BindCall(call, h.Type, h.Recv, h.Info)
+		id, ok := ast.Unparen(hsrc).(*ast.Ident)
+		if !ok || bind[core.ObjOf(h.Info, id)] == nil {
+			return nil, "", fmt.Sprintf("the helper called by `%s` copies `%s`, which is not one of its parameters", c.Src(x), c.Src(hsrc))
+		}
+		return bind[core.ObjOf(h.Info, id)], "", ""
+	}
+	id, ok := ast.Unparen(x).(*ast.Ident)
+	if !ok {
+		return nil, "", fmt.Sprintf("Args `%s` is not a local slice", c.Src(x))
+	}
+	var nonEmptyMake *ast.CallExpr
+	for _, o := range Origins(info, scope, id) {
+		var call *ast.CallExpr
+		var bi *types.Builtin
+		if o.Expr != nil {
+			call, _ = ast.Unparen(o.Expr).(*ast.CallExpr)
+		}
+		if call != nil {
+			bi, _ = core.Callee(info, call).(*types.Builtin)
+		}
+		switch {
+		case o.Zero:
+			// declared without a value: nothing in it yet
+		case call != nil && bi != nil && bi.Name() == "make":
+			n, ok := int64(-1), false
+			if len(call.Args) >= 2 {
+				n, ok = core.IntConst(info, call.Args[1])
+			}
+			if !ok || n != 0 {
+				nonEmptyMake = call
+			}
+		case call != nil && bi != nil && bi.Name() == "append" && len(call.Args) == 2 && !call.Ellipsis.IsValid() && appendsToItself(info, o.Stmt, call):
+			ro, ok := SoleOrigin(info, scope, call.Args[1])
+			if !ok || !ro.Range || ro.Res != 1 {
+				return nil, "", fmt.Sprintf("appended element `%s` is not the value of a range loop", c.Src(call.Args[1]))
+			}
+			rs := ro.Stmt.(*ast.RangeStmt)
+			if !(rs.Pos() <= call.Pos() && call.End() <= rs.End()) {
+				return nil, "", "append outside the range that binds its element"
+			}
+			// one append per element, executed on every iteration
+			n := 0
+			for _, st := range rs.Body.List {
+				if as, ok := st.(*ast.AssignStmt); ok && len(as.Rhs) == 1 && ast.Unparen(as.Rhs[0]) == ast.Expr(call) {
+					n++
+				}
+			}
+			if n != 1 {
+				return nil, "", "the append is not a top-level statement of the range body"
+			}
+			src = rs.X
+		default:
+			if o.Param {
+				return nil, "", fmt.Sprintf("Args `%s` is not built here", c.Src(x))
+			}
+			return nil, "", fmt.Sprintf("unexpected definition of the argument slice: `%s`", c.Src(o.Stmt))
+		}
+	}
+	if src != nil && nonEmptyMake != nil {
+		return nil, fmt.Sprintf("`%s` starts the argument list with nil elements and the copied ones are appended after them: the forwarded command has extra arguments", c.Src(nonEmptyMake)), ""
+	}
+	if src == nil && nonEmptyMake != nil {
+		// make([]T, len(S)) filled by `for i := range S { D[i] = S[i] }` (or the range value)
+		if idx := indexedFill(info, scope, id, nonEmptyMake); idx != nil {
+			src = idx
+		}
+	}
+	if src == nil && nonEmptyMake != nil {
+		return nil, "", fmt.Sprintf("the argument slice is pre-sized by `%s` and filled by index: not the known append form", c.Src(nonEmptyMake))
+	}
+	if src == nil {
+		return nil, "the argument slice is never filled: every command is forwarded without arguments", ""
+	}
+	return src, "", ""
+}
+
+// appendsToItself: stmt is `v = append(v, ...)` for the given append call.
+func appendsToItself(info *types.Info, stmt ast.Node, call *ast.CallExpr) bool {
+	as, ok := stmt.(*ast.AssignStmt)
+	if !ok || len(as.Lhs) != len(as.Rhs) {
+		return false
+	}
+	for i, r := range as.Rhs {
+		if ast.Unparen(r) == ast.Expr(call) {
+			return pat.Same(info, as.Lhs[i], call.Args[0])
+		}
+	}
+	return false
+}
+
 // checkLastDb: every definition of the Db variable is -1, the parsed SELECT argument or target.db.
 func checkLastDb(c *core.Ctx, p *Parser, key string, v *types.Var) {
 	const rule = "R6.payload"
@@ -430,7 +497,9 @@ func checkLastDb(c *core.Ctx, p *Parser, key string, v *types.Var) {
 // startDb: `if ds.startDbId != 0 { enqueue select <startDbId> }` before the loop.
 func startDb(c *core.Ctx, p *Parser, e *Enq, rule, key string) {
 	info := p.Info
-	isStart := func(x ast.Expr) bool { return FieldIs(info, x, Syncer, "startDbId") }
+	isStart := func(x ast.Expr) bool {
+		return x != nil && FieldIs(info, ChaseCopy(info, p.Fn.Decl, x), Syncer, "startDbId")
+	}
 	arg := selectArg(info, p.Fn.Decl.Body, e.Field["Args"])
 	cmd, _ := core.StringConst(info, e.Field["Cmd"])
 	switch {
@@ -453,7 +522,20 @@ func startDb(c *core.Ctx, p *Parser, e *Enq, rule, key string) {
 		// a guard on startDbId of another form is not judged
 		anyTest := func(b *cfg.Block, s int) bool {
 			cond := cfgq.CondOf(b)
-			return cond != nil && core.MentionsField(info, cond, Syncer, "startDbId")
+			if cond == nil {
+				return false
+			}
+			if core.MentionsField(info, cond, Syncer, "startDbId") {
+				return true
+			}
+			hit := false // or a local copy of it
+			ast.Inspect(cond, func(m ast.Node) bool {
+				if id, ok := m.(*ast.Ident); ok && isStart(id) {
+					hit = true
+				}
+				return true
+			})
+			return hit
 		}
 		if p.G.Path(cfgq.Query{From: p.G.Entry(), Avoid: notSend, AvoidEdge: anyTest, Target: p.IsDecode}) == nil {
 			c.Undecidedf(rule, key+"/first", e.Pos(), "the start SELECT is guarded by a test of ds.startDbId that is not the known `!= 0` form")
@@ -572,6 +654,79 @@ func fixedTargetDb(c *core.Ctx, p *Parser, e *Enq, rule, key string) {
 }
 
 // ---------------------------------------------------------------------------
+// R6 (continued): the argument bytes handed to the queue are owned by the command
+
+// argsOwned: the []byte values the RESP decoder returns are freshly allocated;
+// a slice of the bufio.Reader's internal buffer (Peek, ReadSlice) is
+// overwritten by the next refill while the command still waits in ds.sendBuf
+// or in the sender's batch.
+func argsOwned(c *core.Ctx) {
+	const rule = "R6.payload"
+	pk := c.Pkg("pkg/redis")
+	if pk == nil {
+		c.Undecidedf(rule, "args-owned", token.NoPos, "package pkg/redis not loaded")
+		return
+	}
+	info := pk.TypesInfo
+	n := 0
+	for _, b := range AllBodies(c) {
+		if b.Pkg != pk || b.Lit != nil || b.Decl.Recv == nil || core.NamedTypeName(info.TypeOf(b.Decl.Recv.List[0].Type)) != "Decoder" {
+			continue
+		}
+		fresh, alias := 0, ""
+		var apos token.Pos
+		core.Inspect(b.Decl.Body, func(m ast.Node) bool {
+			ret, ok := m.(*ast.ReturnStmt)
+			if !ok {
+				return true
+			}
+			for _, r := range ret.Results {
+				t := info.TypeOf(r)
+				if t == nil {
+					continue
+				}
+				if sl, ok := t.Underlying().(*types.Slice); !ok || !types.Identical(sl.Elem().Underlying(), types.Typ[types.Byte]) {
+					continue
+				}
+				base := ast.Unparen(r)
+				for {
+					if se, ok := base.(*ast.SliceExpr); ok {
+						base = ast.Unparen(se.X)
+						continue
+					}
+					break
+				}
+				for _, o := range Origins(info, b.Decl, base) {
+					call, _ := ast.Unparen(o.Expr).(*ast.CallExpr)
+					if o.Expr == nil || call == nil {
+						continue
+					}
+					if bi, ok := core.Callee(info, call).(*types.Builtin); ok && bi.Name() == "make" {
+						fresh++
+						continue
+					}
+					if f := core.CalleeFunc(info, call); f != nil && f.Pkg() != nil && f.Pkg().Path() == "bufio" && (f.Name() == "Peek" || f.Name() == "ReadSlice" || f.Name() == "Bytes") && o.Res <= 0 {
+						alias, apos = c.Src(call), call.Pos()
+					}
+				}
+			}
+			return true
+		})
+		switch {
+		case alias != "":
+			n++
+			c.Failf(rule, "args-owned/"+b.Decl.Name.Name, apos, "%s returns bytes that alias the bufio.Reader's buffer (`%s`): the parser keeps decoding while the command waits in ds.sendBuf / the sender's batch, the next refill overwrites the buffer, and the target receives different argument bytes than the source sent", b.Decl.Name.Name, alias)
+		case fresh > 0:
+			n++
+			c.Okf(rule, "args-owned/"+b.Decl.Name.Name, b.Decl.Pos(), "the returned bytes are freshly allocated")
+		}
+	}
+	if n == 0 {
+		c.Undecidedf(rule, "args-owned", token.NoPos, "no Decoder method returning allocated bytes found")
+	}
+}
+
+// ---------------------------------------------------------------------------
 // R7 filter polarity
 
 func r7(c *core.Ctx, p *Parser) {
@@ -643,6 +798,75 @@ func r7(c *core.Ctx, p *Parser) {
 			return true
 		})
 		return found
+	}
+	// a verdict variable that survives the iteration may only hold the database verdict
+	// (filter.FilterDB of the parsed SELECT); per-command verdicts are set in every iteration
+	seenV := map[types.Object]bool{}
+	for _, blk := range p.G.CFG.Blocks {
+		if !blk.Live || len(blk.Succs) != 2 {
+			continue
+		}
+		cond := cfgq.CondOf(blk)
+		if cond == nil || !(p.Loop.Pos() <= cond.Pos() && cond.End() <= p.Loop.End()) {
+			continue
+		}
+		ast.Inspect(cond, func(m ast.Node) bool {
+			id, ok := m.(*ast.Ident)
+			if !ok {
+				return true
+			}
+			v, ok := core.ObjOf(info, id).(*types.Var)
+			if !ok || v.IsField() || seenV[v] || !types.Identical(v.Type().Underlying(), types.Typ[types.Bool]) || !verdict(v) {
+				return true
+			}
+			seenV[v] = true
+			isSet := func(n ast.Node) bool {
+				as, ok := n.(*ast.AssignStmt)
+				if ok {
+					for _, l := range as.Lhs {
+						if IsObj(info, v)(l) {
+							return true
+						}
+					}
+				}
+				if ds, ok := n.(*ast.ValueSpec); ok {
+					for _, nm := range ds.Names {
+						if info.Defs[nm] == types.Object(v) {
+							return true
+						}
+					}
+				}
+				return false
+			}
+			uses := func(n ast.Node) bool { return !isSet(n) && core.Mentions(info, n, v) }
+			// read before it is set in the iteration that begins at the top of the loop body
+			carried := false
+			for _, lb := range p.G.CFG.Blocks {
+				if lb.Kind == cfg.KindForBody && lb.Stmt == ast.Stmt(p.Loop) {
+					carried = p.G.Path(cfgq.Query{From: cfgq.Point{B: lb, I: 0}, Avoid: isSet, Target: uses}) != nil
+				}
+			}
+			if !carried {
+				return true
+			}
+			for _, o := range Origins1(info, body, id) {
+				if o.Zero || o.Stmt == nil || !(p.Loop.Pos() <= o.Stmt.Pos() && o.Stmt.End() <= p.Loop.End()) {
+					continue
+				}
+				key := "verdict-scope/" + fmt.Sprint(len(seenV))
+				call, _ := ast.Unparen(o.Expr).(*ast.CallExpr)
+				if call != nil && core.IsFunc(core.CalleeFunc(info, call), "redis-shake/filter", "", "FilterDB") {
+					c.Okf(rule, key, o.Stmt.Pos(), "the flag kept across commands is the database verdict of the last SELECT")
+					continue
+				}
+				if tv, ok := info.Types[o.Expr]; ok && tv.Value != nil && tv.Value.String() == "true" {
+					c.Failf(rule, key, o.Stmt.Pos(), "`%s`: this flag is not re-evaluated for every command (it keeps its value until the next SELECT), so after one command that sets it every following command is counted as filtered and dropped although no filter rejects it", c.Src(o.Stmt))
+				} else {
+					c.Undecidedf(rule, key, o.Stmt.Pos(), "`%s` sets a flag that survives the loop iteration", c.Src(o.Stmt))
+				}
+			}
+			return true
+		})
 	}
 	k := 0
 	for _, pt := range p.G.Points(p.counts(c)) {
